@@ -1,6 +1,6 @@
 (* C03 — property theorems only: each restates the full statement and is closed by the lemma proved in Proofs/. *)
 From Coq Require Import ZArith List Bool.
-From NPS Require Import ListAux PySlice NumpySem Scatter BuildIdx XorBroadcast View Index Assign Reduce Scan RaOps Heap Hash HashRun BitArr RLE RLEOps RLE2d DataClass RowsSpec AssignSpec MapSpec Denote SetItem.
+From NPS Require Import ListAux PySlice NumpySem Scatter BuildIdx XorBroadcast View Index Assign Reduce Scan RaOps Heap Hash HashRun BitArr RLE RLEOps RLE2d DataClass RowsSpec AssignSpec MapSpec Denote SetItem XorProof.
 Import ListNotations.
 Open Scope Z_scope.
 
@@ -16,3 +16,38 @@ Theorem C03_setitem_correct :
        rbind (setitem A dflt xor a idx v) rows_of = spec_setitem (denote A dflt a) idx v.
 Proof. exact setitem_correct. Qed.
 Print Assumptions C03_setitem_correct.
+
+Theorem C03_getitem_factor :
+  forall A : Type,
+       A ->
+       forall (a : ra A) (idx : index),
+       WF A a ->
+       GetItem.model_obs A a idx =
+       rbind (pre A a idx) (fun a0 : ra A => rbind (resolve a0 idx) (gather_target A a0)).
+Proof. exact getitem_factor. Qed.
+Print Assumptions C03_getitem_factor.
+
+Theorem C03_resolve_cells :
+  forall (A : Type) (dflt : A) (a' : ra A) (idx : index),
+       WF A a' ->
+       MaterialiseWF.is_contig (ra_geom a') ->
+       GetItem.index_ok A (denote A dflt a') idx ->
+       spec_getitem (tagged (denote A dflt a')) idx =
+       match resolve a' idx with
+       | Ok t => Ok (cells_of t)
+       | Refused => Refused
+       end.
+Proof. exact resolve_cells. Qed.
+Print Assumptions C03_resolve_cells.
+
+Theorem C03_raw_broadcast_correct :
+  forall (G : Type) (zero : G) (xor : G -> G -> G),
+       (forall a b c : G, xor a (xor b c) = xor (xor a b) c) ->
+       (forall a b : G, xor a b = xor b a) ->
+       (forall a : G, xor a a = zero) ->
+       (forall a : G, xor zero a = a) ->
+       forall (vals : list G) (ls : list Z),
+       length vals = length ls ->
+       all_nonneg ls -> raw_broadcast G zero xor vals ls = spec_broadcast G vals ls.
+Proof. exact raw_broadcast_correct. Qed.
+Print Assumptions C03_raw_broadcast_correct.
